@@ -322,7 +322,9 @@ fn single_flip_case(o1: Opts, o2: Opts, inv: &HashMap<String, (u16, u8)>, st: &m
     let ascii = |s: &str| -> Vec<(u16, u8)> { s.chars().map(|c| (keys().code_for(c), 0u8)).collect() };
     let mut probes: Vec<Vec<(u16, u8)>> = vec![];
     if o1.is_phonetic() {
-        for t in ["\"ami\"", "'k'", "ami", ":)", "smile", "sesh.", "abcgulo"] {
+        // the first probe starts with the text of the last one: whatever the engine keeps "for the word it saw
+        // last" meets the same word again right after the switch
+        for t in ["ami", "\"ami\"", "'k'", ":)", "smile", "sesh.", "abcgulo", "a"] {
             probes.push(ascii(t));
         }
     } else {
@@ -374,6 +376,26 @@ fn single_flip_case(o1: Opts, o2: Opts, inv: &HashMap<String, (u16, u8)>, st: &m
         }
         a.finish().map_err(pf)?;
         b.finish().map_err(pf)?;
+    }
+    // and back again: a context that was away from a setting and returned to it is a new context of that setting
+    a.update(o1, &sb).map_err(pf)?;
+    let copy2 = sb.duplicate();
+    let b1 = Ctx::new(o1, &copy2).map_err(pf)?;
+    for p in &probes {
+        for (i, (c, m)) in p.iter().enumerate() {
+            let ra = a.key(*c, *m, 0).map_err(pf)?;
+            let rb = b1.key(*c, *m, 0).map_err(pf)?;
+            st.evals(1);
+            if ra != rb || a.ongoing() != b1.ongoing() {
+                let names: Vec<String> = p.iter().map(|(c, m)| format!("{}{}", keys().by_code(*c).map(|k| k.name.clone()).unwrap_or_default(), if *m != 0 { "+AltGr" } else { "" })).collect();
+                return Err((
+                    "option-flipped-and-flipped-back-not-honoured".to_string(),
+                    format!("{} -> {} -> {} by update-engine, probe {names:?} at key #{i}: the context returns {} but a newly created context returns {}", o1.letters(), o2.letters(), o1.letters(), ra.short(), rb.short()),
+                ));
+            }
+        }
+        a.finish().map_err(pf)?;
+        b1.finish().map_err(pf)?;
     }
     st.label("single-option-flips");
     st.nontrivial(hash_of(&(o1.letters(), o2.letters())), || json!({"cfg1": o1.letters(), "cfg2": o2.letters(), "probes": probes.len()}));
